@@ -75,6 +75,67 @@ def mutants2(files):
                     yield f, i, l, code[:m.start(1)] + str(nv) + code[m.end(1):] + l[len(code):], f'{v} -> {nv}'
 
 
+# third operator set (--ops 3): wrong-variable faults (paired identifier components swapped, two-argument calls with their
+# arguments exchanged), comparison direction flips, overflow checks replaced by wrapping arithmetic, dropped assignments /
+# pushes, `Some(..)` results replaced by `None`
+PAIRS = [('start', 'end'), ('std', 'dst'), ('before', 'after'), ('previous', 'next'), ('left', 'right'), ('min', 'max'),
+         ('hour', 'minute'), ('minute', 'second'), ('month', 'year'), ('normal', 'leap'), ('lower', 'upper'), ('first', 'last'),
+         ('earliest', 'latest'), ('less', 'greater'), ('add', 'sub'), ('some', 'none'), ('current', 'previous'), ('ut', 'dst')]
+SUBS3 = [(r' < ', ' > '), (r' <= ', ' >= '), (r' > ', ' < '), (r' >= ', ' <= '), (r'Ordering::Less', 'Ordering::Greater'),
+         (r'Ordering::Greater', 'Ordering::Less'), (r'\.saturating_(add|sub|mul)\(', r'.wrapping_\1('), (r'\.div_euclid\(', '.wrapping_div('),
+         (r' as i64\b', ' as u32 as i64'), (r' as usize\b', ' as u8 as usize'), (r'\?;', '.ok();'), (r'\.unix_leap_time\(\)', '.unix_leap_time() + 1'),
+         (r'\.ut_offset\(\)', '.ut_offset() + 1'), (r'\.len\(\)', '.len() - 1'), (r'\.len\(\)', '.len() + 1')]
+IDENT = re.compile(r'[A-Za-z_][A-Za-z0-9_]*')
+CHECKED = re.compile(r'([A-Za-z_][\w.]*(?:\(\))?)\.checked_(add|sub|mul)\(([^()]*(?:\([^()]*\))?[^()]*)\)')
+TWOARGS = re.compile(r'\(([A-Za-z_&*][\w.&*]*(?:\(\))?(?: as \w+)?), ([A-Za-z_&*][\w.&*]*(?:\(\))?(?: as \w+)?)\)')
+ASSIGN = re.compile(r'^\s*(?!let |return |const |pub |fn |use )[a-z_][\w.\[\]]* [-+*/]?= .*;\s*$')
+PUSHST = re.compile(r'^\s*[a-z_][\w.]*\.(push|swap|push_str|insert|extend|truncate)\(.*\);\s*$')
+SOMEEXPR = re.compile(r'(=> |return |^\s*)Some\((.*)\)(,?)\s*$')
+
+
+def _swap_case(word, repl):
+    if word.isupper():
+        return repl.upper()
+    if word[0].isupper():
+        return repl.capitalize()
+    return repl
+
+
+def mutants3(files):
+    for f in files:
+        src, lines = code_lines(f'{REPO}/{f}')
+        for i, l in lines:
+            code = l.split('//')[0]
+            for pat, rep in SUBS3:
+                for m in re.finditer(pat, code):
+                    new = code[:m.start()] + m.expand(rep) + code[m.end():] + l[len(code):]
+                    if new != l:
+                        yield f, i, l, new, f'{pat.strip()} -> {rep.strip()}'
+            for m in IDENT.finditer(code):
+                tok = m.group(0)
+                parts = tok.split('_')
+                for k, part in enumerate(parts):
+                    for a, b in PAIRS:
+                        for x, y in ((a, b), (b, a)):
+                            if part.lower() == x:
+                                np = parts[:k] + [_swap_case(part, y)] + parts[k + 1:]
+                                new = code[:m.start()] + '_'.join(np) + code[m.end():] + l[len(code):]
+                                yield f, i, l, new, f'identifier {tok} -> {"_".join(np)}'
+            for m in CHECKED.finditer(code):
+                new = code[:m.start()] + f'Some({m.group(1)}.wrapping_{m.group(2)}({m.group(3)}))' + code[m.end():] + l[len(code):]
+                yield f, i, l, new, f'checked_{m.group(2)} -> wrapping_{m.group(2)}'
+            for m in TWOARGS.finditer(code):
+                if m.group(1) != m.group(2):
+                    new = code[:m.start()] + f'({m.group(2)}, {m.group(1)})' + code[m.end():] + l[len(code):]
+                    yield f, i, l, new, 'two arguments exchanged'
+            if ASSIGN.match(code) or PUSHST.match(code):
+                yield f, i, l, re.sub(r'\S.*$', '();', code.rstrip(), count=1), 'statement deleted'
+            m = SOMEEXPR.search(code.rstrip())
+            if m and 'if let' not in code and 'while let' not in code:
+                c = code.rstrip()
+                yield f, i, l, c[:m.start()] + m.group(1) + 'None' + m.group(3), 'Some(..) -> None'
+
+
 def sh(cmd, cwd=None, env=None, timeout=900):
     import signal
     p = subprocess.Popen(cmd, cwd=cwd, env=env, shell=True, stdout=subprocess.PIPE, stderr=subprocess.STDOUT, text=True, start_new_session=True)
@@ -156,7 +217,7 @@ def main():
     ap.add_argument('--stride', type=int, default=1, help='take every n-th mutant')
     ap.add_argument('--offset', type=int, default=0)
     ap.add_argument('--keep', action='store_true')
-    ap.add_argument('--ops', type=int, default=1, help='1 = operator swaps / small literals, 2 = conditions, deleted checks, large literals, method swaps')
+    ap.add_argument('--ops', type=int, default=1, help='1 = operator swaps / small literals, 2 = conditions, deleted checks, large literals, method swaps, 3 = wrong-variable faults, direction flips, wrapping arithmetic, dropped statements')
     ap.add_argument('--scr', default='/tmp/mutsweep', help='scratch directory (one per concurrent worker)')
     a = ap.parse_args()
     set_scr(a.scr)
@@ -178,7 +239,7 @@ def main():
                 pass
     res = open(a.out, 'a')
     n = 0
-    gen = mutants2 if a.ops == 2 else mutants
+    gen = {1: mutants, 2: mutants2, 3: mutants3}[a.ops]
     for k, (f, i, old, new, desc) in enumerate(gen(a.files.split(','))):
         if k % a.stride != a.offset or (f, i + 1, new.strip()) in done:
             continue
